@@ -864,3 +864,46 @@ pub fn s22_udp_client_encode_forged(m: Method, ipsk: &[u8], body_upsk: &[u8], ei
     out.extend_from_slice(&ct);
     out
 }
+
+// ---------------------------------------------------------------------------------------------
+// SIP023 relays: what a hop that holds only its own identity key does with a request.
+
+/// TCP: the relay holding `ipsk` opens the FIRST identity header of `wire` (salt ‖ EIH_0 ‖ EIH_1 ‖ ... ‖ rest) under its
+/// identity subkey and learns the hash of the next key; what it forwards is the stream without that header.
+pub fn s22_relay_hop_tcp(m: Method, ipsk: &[u8], wire: &[u8]) -> RefResult<([u8; 16], Vec<u8>)> {
+    let k = m.key_len();
+    if wire.len() < k + 16 {
+        return Err(RefError::Incomplete);
+    }
+    let sub = identity_subkey(m, ipsk, &wire[..k]);
+    let mut block = [0u8; 16];
+    block.copy_from_slice(&wire[k..k + 16]);
+    aes_ecb_decrypt_block(&sub, &mut block);
+    let mut fwd = wire[..k].to_vec();
+    fwd.extend_from_slice(&wire[k + 16..]);
+    Ok((block, fwd))
+}
+
+/// UDP (AES methods): the relay holding `ipsk` decrypts the separate header, opens the first identity header
+/// (AES-ECB under `ipsk`, XOR separate header) and forwards the packet with the separate header re-encrypted under the
+/// next hop's key and that identity header removed.
+pub fn s22_relay_hop_udp(m: Method, ipsk: &[u8], next_ipsk: &[u8], pkt: &[u8]) -> RefResult<([u8; 16], Vec<u8>)> {
+    assert!(m.supports_eih());
+    if pkt.len() < 32 {
+        return Err(RefError::Incomplete);
+    }
+    let mut head = [0u8; 16];
+    head.copy_from_slice(&pkt[..16]);
+    aes_ecb_decrypt_block(ipsk, &mut head);
+    let mut block = [0u8; 16];
+    block.copy_from_slice(&pkt[16..32]);
+    aes_ecb_decrypt_block(ipsk, &mut block);
+    for (b, h) in block.iter_mut().zip(head.iter()) {
+        *b ^= h;
+    }
+    let mut out_head = head;
+    aes_ecb_encrypt_block(next_ipsk, &mut out_head);
+    let mut fwd = out_head.to_vec();
+    fwd.extend_from_slice(&pkt[32..]);
+    Ok((block, fwd))
+}
